@@ -107,7 +107,9 @@ def alphabets(draw, kind=None):
         kind = draw(st.sampled_from(["dna", "protein"]))
     if kind == "dna":
         return "dna", draw(st.sampled_from([NUC, NUC, NUC_U, NUC_N, "ACGTU"]))
-    return "protein", draw(st.sampled_from([AA, AA, AA_X]))
+    # mostly the 20 amino acids; sometimes with the ambiguity codes, selenocysteine (U) and the letters kalign has no
+    # class of its own for (O, J: treated as unknown residues)
+    return "protein", draw(st.sampled_from([AA, AA, AA, AA_X, AA_X, AA + "U", AA_X + "UOJ"]))
 
 
 @st.composite
